@@ -200,7 +200,7 @@ func (pd *perRawBitData) appendBitString(bytes []byte, bitsLength uint64, extens
 
 	var byteOffset, partOfRawLength uint64
 	for {
-		if rawLength > 65536 {
+		if rawLength >= 65536 {
 			partOfRawLength = 65536
 		} else if rawLength >= 16384 {
 			partOfRawLength = rawLength & 0xc000
@@ -222,7 +222,8 @@ func (pd *perRawBitData) appendBitString(bytes []byte, bitsLength uint64, extens
 		perTrace(2, fmt.Sprintf("Encoded BIT STRING (length = %d): 0x%0x", partOfRawLength,
 			bytes[byteOffset:byteOffset+sizes]))
 		rawLength -= (partOfRawLength - uint64(lb))
-		if rawLength > 0 {
+		if rawLength > 0 || (sizeRange < 0 && partOfRawLength-uint64(lb) >= 16384) {
+			// a 16K-multiple fragment is always followed by another length determinant (X.691 10.9.3.8)
 			byteOffset += sizes
 		} else {
 			pd.bitsOffset += uint(partOfRawLength & 0x7)
@@ -291,7 +292,7 @@ func (pd *perRawBitData) appendOctetString(bytes []byte, extensive bool, lowerBo
 
 	var byteOffset, partOfRawLength uint64
 	for {
-		if rawLength > 65536 {
+		if rawLength >= 65536 {
 			partOfRawLength = 65536
 		} else if rawLength >= 16384 {
 			partOfRawLength = rawLength & 0xc000
@@ -312,7 +313,8 @@ func (pd *perRawBitData) appendOctetString(bytes []byte, extensive bool, lowerBo
 		perTrace(2, fmt.Sprintf("Encoded OCTET STRING (length = %d): 0x%0x", partOfRawLength,
 			bytes[byteOffset:byteOffset+partOfRawLength]))
 		rawLength -= (partOfRawLength - uint64(lb))
-		if rawLength > 0 {
+		if rawLength > 0 || (sizeRange < 0 && partOfRawLength-uint64(lb) >= 16384) {
+			// a 16K-multiple fragment is always followed by another length determinant (X.691 10.9.3.8)
 			byteOffset += partOfRawLength
 		} else {
 			// pd.appendAlignBits()
@@ -562,7 +564,7 @@ func (pd *perRawBitData) appendOpenType(v reflect.Value, params fieldParameters)
 
 	var byteOffset, partOfRawLength uint64
 	for {
-		if rawLength > 65536 {
+		if rawLength >= 65536 {
 			partOfRawLength = 65536
 		} else if rawLength >= 16384 {
 			partOfRawLength = rawLength & 0xc000
@@ -582,7 +584,8 @@ func (pd *perRawBitData) appendOpenType(v reflect.Value, params fieldParameters)
 		perTrace(2, fmt.Sprintf("Encoded OpenType RawData (length = %d): 0x%0x", partOfRawLength,
 			openTypeBytes[byteOffset:byteOffset+partOfRawLength]))
 		rawLength -= partOfRawLength
-		if rawLength > 0 {
+		if rawLength > 0 || partOfRawLength >= 16384 {
+			// a 16K-multiple fragment is always followed by another length determinant (X.691 10.9.3.8)
 			byteOffset += partOfRawLength
 		} else {
 			pd.appendAlignBits()
